@@ -111,6 +111,42 @@ func (p *Prog) verifyFunc(fn *ssa.Function, ct *Contract) (fx *Fx, err error) {
 	env := &Env{fx: fx, st: st, old: fx.Entry, vars: fx.entryVarsM}
 	knownDistinct = map[[2]int]bool{}
 	if ct != nil {
+		// a precondition that fixes a parameter leaf to a constant (len(V) = 16) is applied as a substitution,
+		// so that loops bounded by it have constant trip counts
+		pin := map[*Term]*Term{}
+		for _, r := range ct.Requires {
+			for _, c := range conjuncts(p.elab(fx, r.X, env).Scalar()) {
+				if c.Op == "=" {
+					a, b := c.Args[0], c.Args[1]
+					if b.Op == "sym" && a.IsConst() {
+						a, b = b, a
+					}
+					if a.Op == "sym" && b.IsConst() {
+						pin[a] = b
+					}
+				}
+			}
+		}
+		if len(pin) > 0 {
+			for _, prm := range fn.Params {
+				v := fr.Vals[prm]
+				nl := make([]*Term, len(v.L))
+				for i, l := range v.L {
+					nl[i] = l
+					if c, ok := pin[l]; ok {
+						nl[i] = c
+					}
+				}
+				fr.Vals[prm] = Val{T: v.T, L: nl}
+				fx.assumeTypeInv(st, fr.Vals[prm])
+			}
+			for i := range fx.Params {
+				fx.Params[i].V = fr.Vals[fn.Params[i]]
+			}
+			fx.Entry = st.Clone()
+			fx.entryVarsM = fx.frameVars(st)
+			env = &Env{fx: fx, st: st, old: fx.Entry, vars: fx.entryVarsM}
+		}
 		for _, r := range ct.Requires {
 			rt := p.elab(fx, r.X, env).Scalar()
 			fx.assumeGlobal(rt)
